@@ -81,14 +81,15 @@ Definition ren_key (old new : nkey) (k : nkey) : nkey := if nkey_eqb k old then 
 Definition ren_table {V} (old new : nkey) (tbl : list (nkey * V)) : list (nkey * V) :=
   map (fun kv => (ren_key old new (fst kv), snd kv)) tbl.
 
-(* ---- rename_sheet_by_index on one defined-name formula (new_empty.rs:505-520) ------------------- *)
-(* parse with the ACTIVE parser (A1 mode, active locale and language), rename the sheet in the
-   tree, print with to_localized_string in the active configuration.  Tokens stand for the text;
-   a failed parse is ParseErrorKind, whose print is the original text. *)
+(* ---- rename_sheet_by_index on one defined-name formula (new_empty.rs, defined-name loop) -------- *)
+(* Since commit 9f60d5e: parse with the ENGLISH A1 parser (the parser is switched to the default
+   locale and language around the loop), rename the sheet in the tree, print with
+   to_english_string.  [m], [nm] are that one configuration: parser and printer agree.  Tokens
+   stand for the text; a failed parse is ParseErrorKind, whose print is the original text. *)
 From IronCalc Require Import Syntax.Printer Syntax.Parser.
 Section RenameSheetOnName.
-  Variable m : pmode.                       (* active display form, context cell (1,1) *)
-  Variable nm : names.                      (* active language *)
+  Variable m : pmode.                       (* English display form, context cell (1,1) *)
+  Variable nm : names.                      (* English tables *)
   Variable env : penv.
   Variable rename_sheet : ast -> ast.       (* rename_sheet_in_node for the sheet being renamed *)
   Definition name_formula_after_rename (stored : list token) : list token :=
@@ -98,34 +99,20 @@ Section RenameSheetOnName.
     end.
 End RenameSheetOnName.
 
-(* tokens are compared structurally *)
-Definition cmp_eqb (a b : cmp_op) : bool :=
-  match a, b with CLt, CLt | CGt, CGt | CEq, CEq | CLe, CLe | CGe, CGe | CNe, CNe => true | _, _ => false end.
-Definition sum_eqb (a b : sum_op) : bool := match a, b with SAdd, SAdd | SMinus, SMinus => true | _, _ => false end.
-Definition prod_eqb (a b : prod_op) : bool := match a, b with PTimes, PTimes | PDivide, PDivide => true | _, _ => false end.
-Definition token_eqb (a b : token) : bool :=
-  match a, b with
-  | TIllegal, TIllegal | TPower, TPower | TLParen, TLParen | TRParen, TRParen | TColon, TColon | TSemicolon, TSemicolon
-  | TLBracket, TLBracket | TRBracket, TRBracket | TLBrace, TLBrace | TRBrace, TRBrace | TComma, TComma | TBang, TBang
-  | TPercent, TPercent | TAnd, TAnd | TAt, TAt | TSpill, TSpill | TBackslash, TBackslash => true
-  | TIdent x, TIdent y | TString x, TString y | TNumber x, TNumber y => text_eqb x y
-  | TBoolean x, TBoolean y => Bool.eqb x y
-  | TError x, TError y => x =? y
-  | TCompare x, TCompare y => cmp_eqb x y
-  | TAddition x, TAddition y => sum_eqb x y
-  | TProduct x, TProduct y => prod_eqb x y
-  | TReference s p, TReference s' p' => opt_text_eqb s s' && pref_eqb p p'
-  | TRange s p q, TRange s' p' q' => opt_text_eqb s s' && pref_eqb p p' && pref_eqb q q'
-  | _, _ => false
-  end.
-Fixpoint tokens_eqb (a b : list token) : bool :=
-  match a, b with
-  | [], [] => true
-  | x :: a', y :: b' => token_eqb x y && tokens_eqb a' b'
-  | _, _ => false
-  end.
-
-(* the proviso of C32_other_sheets: the stored (English) text is spelled the same way in the active
-   configuration — no function or boolean whose name differs, no separator that differs *)
-Definition lang_neutral (m_en m : pmode) (nm_en nm : names) (e : ast) : bool :=
-  tokens_eqb (print m nm e) (print m_en nm_en e).
+(* ---- update_defined_name on one stored cell formula (model.rs, the loop under "new_name != df.name") *)
+(* The stored R1C1 text is parsed with self.parser in R1C1 lexer mode — with the ACTIVE locale and
+   language (this loop was not changed by 9f60d5e) —, the rename pass runs over the tree and
+   to_rc_format (English, decimal point) prints it. *)
+Definition m_rc_of (dot : bool) : pmode := {| pm_rc := true; pm_xlsx := false; pm_dot := dot; pm_row := 1; pm_col := 1 |}.
+Section RenameNameInFormula.
+  Variable dot_active : bool.               (* the active locale has a decimal point *)
+  Variable nm_active nm_en : names.
+  Variable env : penv.
+  Variable lower : text -> text.
+  Variables (name : text) (scope : option Z) (new_name : text).
+  Definition formula_after_name_rename (stored : list token) : list token :=
+    match parse (m_rc_of dot_active) nm_active env stored with
+    | Some (e, _) => print (m_rc_of true) nm_en (rename lower name scope new_name e)
+    | None => stored
+    end.
+End RenameNameInFormula.
